@@ -851,7 +851,7 @@ func TestC47(t *testing.T) {
 	run.Assume("fakeredis keeps a per-connection session record (user, name, db, tracking, readonly, no-touch, no-evict, lib info, protocol) that reflects exactly the setup commands it answered OK")
 	rueidis.VerifSetQueueType("flowbuffer")
 	defer rueidis.VerifSetQueueType("")
-	n := run.N(700, 20000)
+	n := run.N(1200, 20000)
 	base := run.Rand("cases").Int63()
 	for i := 0; i < n; i++ {
 		r := rand.New(rand.NewSource(base + int64(i)*6151))
